@@ -500,6 +500,61 @@ F_ALPHABET = ["!", "&", '"', "'", "$", " ", "a", "+"]
 
 
 class FortranExtracted(Extracted):
+    def _regex_sentinel(self):
+        """dir_check written with a regular expression: the sentinel is `<letters>*$` after the `!`; the pattern's AST
+        (re._parser) is checked for the letter class - every ASCII letter, either case (`!DIR$`, `!DEC$`, `!GCC$`,
+        `!$omp`) - the rest of a regex formulation is not modelled (analysis error)"""
+        import re._parser as sre
+
+        pats = []
+        mod = self.cls.module
+        consts = {t.id: st.value for st in mod.tree.body if isinstance(st, ast.Assign) for t in st.targets if isinstance(t, ast.Name)}
+        for n in ast.walk(self.dir_check.node):
+            if isinstance(n, ast.Call) and isinstance(n.func, ast.Attribute) and n.func.attr in ("match", "fullmatch", "search"):
+                src = n.func.value
+                if isinstance(src, ast.Name) and isinstance(consts.get(src.id), ast.Call):
+                    src = consts[src.id]
+                cand = None
+                if isinstance(src, ast.Call) and u(src.func) in ("re.compile",) and src.args and isinstance(src.args[0], ast.Constant):
+                    cand = (src.args[0].value, [u(k.value) for k in src.keywords] + [u(a) for a in src.args[1:]])
+                elif isinstance(src, ast.Name) and src.id == "re" and n.args and isinstance(n.args[0], ast.Constant):
+                    cand = (n.args[0].value, [u(a) for a in n.args[2:]] + [u(k.value) for k in n.keywords])
+                if cand:
+                    pats.append(cand)
+        if len(pats) != 1:
+            raise AnalysisError("dir_check: loop over the input buffer not found")
+        pat, flags = pats[0]
+        try:
+            tree = list(sre.parse(pat))
+        except Exception as e:
+            raise AnalysisError(f"dir_check: sentinel pattern does not parse: {e}")
+        icase = any("IGNORECASE" in f or f.endswith("re.I") for f in flags)
+        ok_shape = len(tree) >= 2 and str(tree[0][0]) == "MAX_REPEAT" and tree[0][1][0] == 0 and str(tree[-1][0]) == "LITERAL" and tree[-1][1] == ord("$")
+        if not ok_shape:
+            raise AnalysisError(f"dir_check: sentinel pattern `{pat}` is not of the form <letters>*\\$")
+        cls_items = tree[0][1][2]
+        letters = set()
+        for it in cls_items:
+            if str(it[0]) == "IN":
+                for kind, val in it[1]:
+                    if str(kind) == "RANGE":
+                        letters |= {chr(c) for c in range(val[0], val[1] + 1)}
+                    elif str(kind) == "LITERAL":
+                        letters.add(chr(val))
+            elif str(it[0]) == "LITERAL":
+                letters.add(chr(it[1]))
+        if icase:
+            letters |= {c.upper() for c in letters} | {c.lower() for c in letters}
+        import string
+
+        missing = sorted(set(string.ascii_letters) - letters)
+        if missing:
+            raise ExternalDependence(
+                f"fortran_cleaner.dir_check: the sentinel pattern `{pat}` admits only {''.join(sorted(letters & set(string.ascii_letters)))[:12]}... before the `$`: directive comments whose sentinel has other letters ({''.join(missing)[:8]}...: `!DIR$ IVDEP`, `!DEC$ ATTRIBUTES`, `!GCC$ unroll`) are taken for plain comments and not counted",
+                key="fortran_cleaner:dir_check:sentinel-letters",
+            )
+        raise AnalysisError("dir_check: regular-expression formulation is not modelled beyond its letter class")
+
     def __init__(self, repo):
         super().__init__(repo, "fortran_cleaner")
         self.dir_check = self.cls.find_method("dir_check")
@@ -516,6 +571,8 @@ class FortranExtracted(Extracted):
         self.epilogue = body[idx + 1 :]
         # dir_check: the per-character loop
         loops = [n for n in self.dir_check.node.body if isinstance(n, ast.For) and u(n.iter) == self.dir_check.params[1]]
+        if not loops:
+            self._regex_sentinel()
         if len(loops) != 1:
             raise AnalysisError("dir_check: loop over the input buffer not found")
         self.dc_loop = loops[0]
